@@ -21,6 +21,14 @@ HARNESSES = [  # (name, source, trace module, args builder, extra flags)
     ("c01", "c01.cpp", "Trace_C01", lambda tr, pairs: [tr, "small"]),
     ("c02", "c02.cpp", "Trace_C02", lambda tr, pairs: [tr, "quick"]),
     ("c06", "c06.cpp", "Trace_C06", lambda tr, pairs: [tr, "quick"]),
+    # the harnesses of the geometric / transform / quaternion / linear-algebra / colour / projection properties (no TLC-generated input files)
+    ("c12", "c12.cpp", "Trace_C12", lambda tr, pairs: [tr, "quick"]),
+    ("c09", "c09.cpp", "Trace_C09", lambda tr, pairs: [tr, "0", "quick", "full"]),
+    ("c04", "c04.cpp", "Trace_C04", lambda tr, pairs: [tr, "quick"]),
+    ("c10gen", "c10.cpp", "Trace_C10", lambda tr, pairs: [tr, "quick", "gen"]),
+    ("c10misc", "c10.cpp", "Trace_C10", lambda tr, pairs: [tr, "quick", "misc"]),
+    ("c08", "c08.cpp", "Trace_C08", lambda tr, pairs: [tr, "10", "quick", "full"], ["-DC08_HAVE_INF_HALF"]),
+    ("c19", "c19.cpp", "Trace_C19", lambda tr, pairs: [tr, "quick", "all"]),
 ]
 VARIANTS_QUICK = [("pure-O1", ["-O1"], [])]
 VARIANTS_THOROUGH = VARIANTS_QUICK + [("pure-O0", ["-O0"], []), ("pure-O2", ["-O2"], []),
@@ -33,7 +41,8 @@ KNOWN_UB = [("mul", "glm/detail/", "u16", "KD-C20-u16-multiplication-promoted-to
 
 def known_ub(key):
     for fn, where, t, kid in KNOWN_UB:
-        if (key[1] or key[0]) == fn and key[2] == t and key[4].startswith(where) and "signed-integer-overflow" in key[4]:
+        # the same multiplication reached through std::multiplies<T> (called by GLM's compute_vec_mul functor path) is the same finding
+        if (key[1] or key[0]) == fn and key[2] == t and (key[4].startswith(where) or key[4].startswith("glm/ (via stl_function.h")) and "signed-integer-overflow" in key[4]:
             return kid
     return None
 
@@ -69,8 +78,9 @@ def run(ctx):
     variants = VARIANTS_QUICK if ctx.quick else VARIANTS_THOROUGH
     specs = []
     for (vl, opt, extra) in variants:
-        for (hn, src, tm, argf) in HARNESSES:
-            specs.append({"name": "c20_%s_%s" % (hn, re.sub(r"\W", "_", vl)), "src": src, "flags": SAN + extra, "cxx": "clang++", "opt": opt[0], "hn": hn, "vl": vl, "tm": tm, "argf": argf})
+        for h in HARNESSES:
+            (hn, src, tm, argf), hflags = h[:4], (h[4] if len(h) > 4 else [])
+            specs.append({"name": "c20_%s_%s" % (hn, re.sub(r"\W", "_", vl)), "src": src, "flags": SAN + extra + hflags, "cxx": "clang++", "opt": opt[0], "hn": hn, "vl": vl, "tm": tm, "argf": argf})
     built = vlib.build_many(specs)
     todo = []
     for sp, (b, lg) in zip(specs, built):
@@ -125,7 +135,7 @@ def run(ctx):
             vlib.log("[c20] WARNING: reports located in the harness itself (ignored): %s" % harness_ub)
             ctx.extra.setdefault("harness_located_reports_ignored", {}).update(harness_ub)
         # the specification decides whether each reporting event is inside the documented domain
-        for key, lines in sorted(ub_lines.items())[:60]:
+        for key, lines in sorted(ub_lines.items()):
             total_ub_events += len(lines)
             gp = ctx.scratch.path("ub-%s-%s.ndjson" % (label, re.sub(r"\W", "_", "-".join(key))))
             sel = lines[:400]
@@ -170,9 +180,11 @@ def run(ctx):
                               % (indomain, (key[1] or key[0]), key[2] or key[3], sp["vl"], key[4], len(lines), v.skipped), rp)
         os.remove(tr)
     ctx.extra["events_with_sanitizer_reports"] = total_ub_events
-    ctx.rule("the specification-driven harnesses of C01, C02, C05, C06, C11, C14, C18 (exhaustive 8-bit domains, special-value lattices, boundary and "
+    ctx.rule("the specification-driven harnesses of C01, C02, C04, C05, C06, C08, C09, C10, C11, C12, C14, C18, C19 (exhaustive 8-bit domains, special-value lattices, boundary and "
              "random values, every documented (offset,bits) pair ...) replayed under clang AddressSanitizer + UndefinedBehaviorSanitizer + "
              "float-cast-overflow; each event carries the number of sanitizer reports raised while it executed; the property's TLA+ trace "
              "specification decides which reporting events are inside the documented domain", exhaustive=False)
     ctx.assumptions += ["only undefined behaviour that clang's sanitizers report is observable (strict-aliasing punning is not)",
-                        "domain = the enabling conditions (VSkip) of the trace specifications of the other properties"]
+                        "domain = the enabling conditions (VSkip) of the trace specifications of the other properties",
+                        "UBSan reports each instrumented site (per template instantiation / inlined copy) once per process: a second in-domain event at a site "
+                        "already reported for an earlier event of the same run is not observed separately"]
